@@ -28,6 +28,10 @@ def unary_menu():
     add(("starmapkw",), ("p",), "i")
     add(("filterargs",), ("i",), "i")
     add(("accws",), ("i",), "p")                   # with_state=True emits (state, result)
+    add(("starmapargs",), ("p",), "i")
+    add(("filtername",), ("i",), "i")
+    add(("accnone",), ("i",), "i")
+    add(("accrsws",), ("i",), "p")
     add(("pkey", "idx"), ("p",), "p")              # partition keyed by x[0] (non-callable key)
     add(("flatten",), ("p", "tn", "te"), "i")
     add(("pluck", 0), ("p", "tn"), "i")
@@ -59,6 +63,8 @@ JOINS = [
     ("zip", ((1, "L"),)),
     ("zip", ((0, "L"),)),
     ("zip", ((2, "L"),)),
+    ("zip", ((0, "L"), (2, "M"))),
+    ("zip", ((1, "L"), (2, "M"))),
     ("cl", None, ""),
     ("cl", (0,), "int"),
     ("cl", (1,), "int"),
@@ -142,6 +148,9 @@ def programs(thorough):
         progs.append(("branchjoin", (("src", "s"), ("node", "m", ("filter", "odd"), ("s",)), ("node", "j", j, ("s", "m"))), ("s",)))
     # (the same node given twice to one join is a parallel edge: union delivers once, combine_latest and
     # zip_latest raise, zip(s, s) is pinned by the unit test test_zip_same - no stated semantics, not generated)
+    # None is an ordinary element value for the joins (no user function involved): shape "nonejoin"
+    for j in (("zip", ()), ("cl", None, ""), ("zl",), ("union",)):
+        progs.append(("nonejoin", (("src", "a"), ("src", "b"), ("node", "j", j, ("a", "b"))), ("a", "b")))
     # three-input joins
     for j in (("zip", ()), ("cl", None, ""), ("zl",), ("union",)):
         progs.append(("join3", (("src", "a"), ("src", "b"), ("src", "c"), ("node", "j", j, ("a", "b", "c"))), ("a", "b", "c")))
@@ -217,7 +226,7 @@ def run_space(ctx, pid, mode, depth, values, thorough, engine_note, clauses_doc)
         progs = [p for p in progs if ctx.only in repr(p)]
     items = [(shape, prog, entries, mode,
               (depth if len(entries) < 3 else min(depth, 3)) + (2 if shape == "deep" else 0) - (1 if shape == "twin" and len(entries) < 3 else 0),
-              values if shape != "deep" else (1, 2, 3)) for shape, prog, entries in progs]
+              (None, 1) if shape == "nonejoin" else (values if shape != "deep" else (1, 2, 3))) for shape, prog, entries in progs]
     rep = Report()
     tot = dict(states=0, transitions=0, runs=0, nontrivial=0)
     byshape = {}
